@@ -23,10 +23,6 @@ KEY_D22 = "boot-failure-during-halt"
 # running one case on the real arbiter
 # ---------------------------------------------------------------------------------------------------
 
-class Run:
-    pass
-
-
 def run_case(cfg, script, tail_loops=None):
     w = L.World(workers=cfg["workers"], timeout=cfg["timeout"], graceful=cfg["graceful_timeout"], rand=cfg.get("rand", 0.0))
     if tail_loops is None:
@@ -64,13 +60,7 @@ def run_case(cfg, script, tail_loops=None):
                 world.oracle_notes.append("spawn_workers registered worker number %d although the target is %d" % (n, num))
     w.probe = probe
     w.run(script, policy=L.make_settle(tail_loops))
-    if w.closed_listeners:
-        pass
     return w
-
-
-def mark_stop(w):
-    """index (in w.reaps) at which stop() was first entered is not needed; stop is recognised by close_sockets."""
 
 
 def judge(cfg, w):
@@ -227,7 +217,6 @@ def gen_random(rng, maxev):
 def exhaustive_cases(depth):
     """thorough: every sequence over a small alphabet, one event per master step position class"""
     import itertools
-    alpha = [("M",), ("M",), ("C",), ("Xk", 0, 0), ("Xk", 1, 768), ("S", SIG["TTIN"]), ("S", SIG["TTOU"]), ("S", SIG["HUP"])]
     alpha = [("MM",), ("C",), ("Xk", 0, 0), ("Xk", 1, 768), ("S", SIG["TTIN"]), ("S", SIG["TTOU"]), ("S", SIG["HUP"])]
     for seq in itertools.product(alpha, repeat=depth):
         s = []
@@ -384,8 +373,9 @@ def real_processes(ctx):
             steps.append(("TTOU x2", 2, srv.wait_workers(2, 15)))
             before = set(srv.workers()[0])
             srv.signal(sg.SIGHUP)
-            t = srv.wait_for(lambda: len(srv.workers()[0]) == 2 and not (set(srv.workers()[0]) & before) and not srv.workers()[1], 20)
-            steps.append(("HUP (all workers replaced)", 2, t))
+            # a reload re-reads the configuration: the target is again the configured 3
+            t = srv.wait_for(lambda: len(srv.workers()[0]) == 3 and not (set(srv.workers()[0]) & before) and not srv.workers()[1], 20)
+            steps.append(("HUP (all workers replaced, target back to the configured 3)", 3, t))
             for what, want, t in steps:
                 ctx.hist("real_process_step", "%s:%s" % (what, "ok" if t is not None else "FAILED"))
                 if t is None:
